@@ -414,3 +414,98 @@ func TestKnownTopLevelNull(t *testing.T) {
 	}
 	P.KnownFinding(sig, reproduced)
 }
+
+// ---------- concurrent encode / decode (race-detector build) ----------
+
+type ConcCase struct {
+	Toks       []tok.Tok `json:"toks"`
+	Goroutines int       `json:"goroutines"`
+}
+
+// runConc: several goroutines seal / encode / decode their own tokens at the
+// same time; every goroutine must get back exactly its own token.
+func runConc(c *h.Ctx, cc ConcCase) {
+	type built struct {
+		tk   token.Token
+		priv interface{}
+		view tok.View
+		d    tok.Tok
+	}
+	var bs []built
+	for _, d := range cc.Toks {
+		tk, priv, err := tok.Build(d)
+		if err != nil {
+			continue
+		}
+		if _, _, err := tk.ToSealed(priv); err != nil {
+			continue
+		}
+		v, _ := tok.ViewOf(tk)
+		bs = append(bs, built{tk, priv, v, d})
+	}
+	if len(bs) == 0 {
+		return
+	}
+	bad := make(chan string, 16)
+	report := func(s string) {
+		select {
+		case bad <- s:
+		default:
+		}
+	}
+	if pv := h.Concurrently(cc.Goroutines, func(g int) {
+		for r := 0; r < 4; r++ {
+			b := bs[(g+r)%len(bs)]
+			priv := b.d.Issuer().Key().Priv
+			sealed, _, err := b.tk.ToSealed(priv)
+			if err != nil {
+				report("ToSealed failed under concurrency: " + err.Error())
+				continue
+			}
+			js, jerr := b.tk.ToDagJson(priv)
+			cb, _ := b.tk.ToDagCbor(priv)
+			keep := append([]byte{}, sealed...)
+			keepJS := append([]byte{}, js...)
+			got, _, err := token.FromSealed(sealed)
+			if err != nil {
+				report("FromSealed rejects own output under concurrency: " + err.Error())
+				continue
+			}
+			if v, err := tok.ViewOf(got); err != nil || tok.Diff(b.view, v) != "" {
+				report("decoded token differs under concurrency: " + tok.Diff(b.view, v))
+			}
+			if _, err := token.FromDagCbor(cb); err != nil {
+				report("FromDagCbor rejects own output under concurrency")
+			}
+			if jerr == nil && !hasIntegralFloat(b.d) {
+				if gj, err := token.FromDagJson(js); err != nil {
+					report("FromDagJson rejects own output under concurrency: " + err.Error())
+				} else if v, err := tok.ViewOf(gj); err != nil || tok.Diff(b.view, v) != "" {
+					report("DAG-JSON decoded token differs under concurrency: " + tok.Diff(b.view, v))
+				}
+			}
+			if !bytes.Equal(keep, sealed) || !bytes.Equal(keepJS, js) {
+				report("encoder output changed while other goroutines were encoding")
+			}
+		}
+	}); pv != nil {
+		c.Fail("C07/concurrent/panic", "panic under concurrent seal/unseal: %v", pv)
+	}
+	close(bad)
+	for b := range bad {
+		c.Fail("C07/concurrent/roundtrip", "%s", b)
+	}
+	c.P.NonTrivial([]any{"conc", len(bs), cc.Goroutines, bs[0].d.OptionBitmap()}, map[string]any{"mode": "concurrent-roundtrip", "tokens": len(bs), "goroutines": cc.Goroutines})
+}
+
+var concProp = h.Define(P, "concurrent", func(t *rapid.T) ConcCase {
+	cfg := tok.GenCfg{Algs: []keys.Alg{keys.Ed25519, keys.Ed25519, keys.P256, keys.Secp256k1, keys.RSA}, NoTopNull: true, OnlyFuture: true, Values: val.Cfg{Depth: 2, MaxLen: 3, SafeInts: true, NoFloat: true}}
+	cc := ConcCase{Goroutines: rapid.IntRange(2, 8).Draw(t, "goroutines")}
+	n := rapid.IntRange(1, 4).Draw(t, "ntok")
+	for i := 0; i < n; i++ {
+		cc.Toks = append(cc.Toks, tok.Gen(t, cfg))
+	}
+	return cc
+}, runConc)
+
+func TestConcurrentRoundTrip(t *testing.T) { concProp.Check(t) }
